@@ -155,8 +155,14 @@ class Facts:
     def __init__(self, path):
         with open(path) as f:
             d = json.load(f)
+        from .simplify import strip_drop_scaffolding
+        self.stripped = strip_drop_scaffolding(d)
+        from .canon import canonicalise_adts
+        d, self.renamed_adts = canonicalise_adts(d)
         from .canon import canonicalise
         d, self.renamed = canonicalise(d)
+        from .canon import canonicalise_fields
+        d, self.renamed_fields = canonicalise_fields(d)
         from .inline import inline_new_functions
         d, self.inlined = inline_new_functions(d)
         from .inline import desugar_combinators, thread_known_variants
